@@ -60,12 +60,15 @@ func VerifC05TLSConfig() {
 		zzverif.Assert((cert != "" && key != "" && c05.loadFails) || (ca != "" && c05.poolFails), "C05.tls.server-config-error-only-on-load-failure")
 	}
 	c05.pools, c05.poolPaths = nil, nil
-	name := []string{"", "frps.example"}[zzverif.Choice("serverName", 2)]
+	// the name the client dials may also be an address literal (serverAddr is an IP and no tls.serverName)
+	name := []string{"", "frps.example", "203.0.113.7", "2001:db8::7"}[zzverif.Choice("serverName", 4)]
 	ccfg, err := NewClientTLSConfig(cert, key, ca, name)
 	if err == nil {
 		zzverif.Assert(ccfg.ServerName == name, "C05.tls.client-server-name")
 		if ca != "" {
 			zzverif.Assert(!ccfg.InsecureSkipVerify, "C05.tls.client-ca-verifies-server")
+			// identity matching is the library's job as long as it is not switched off or replaced
+			zzverif.Assert(ccfg.VerifyPeerCertificate == nil && ccfg.VerifyConnection == nil, "C05.tls.client-leaves-identity-matching-to-the-library")
 			zzverif.Assert(len(c05.pools) == 1 && ccfg.RootCAs == c05.pools[0], "C05.tls.client-trusts-exactly-the-configured-ca")
 			zzverif.Reach("C05.tls.client-verifies")
 		} else {
